@@ -83,6 +83,32 @@ def run(res, tier, seed=13):
             for a in ("min", "max", "controller", "module"):
                 if hasattr(mp, a):
                     setattr(mp, a, 3)
+        # looking for attributes that do not exist (feature probing with hasattr / getattr-with-default, old unit-suffixed names)
+        for c in t.controllers[:12]:
+            for suffix in ("_hz", "_ms", "_pct", "_db", "_sec", "_semitones", "_raw", "__"):
+                hasattr(m, c.name + suffix)
+                getattr(m, c.name + suffix, None)
+        res.count("missing_attribute_probes")
+        # a MultiCtl pulling its value back from a controller that holds an out-of-range value (kept leniently)
+        try:
+            rp = api.Project()
+            tgt = rp.new_module(cls)
+            ranged = [c for c in t.controllers if c.kind in ("range", "compact", "dependent") and c.attached]
+            if ranged:
+                c0 = ranged[0]
+                hi = c0.max if c0.kind != "dependent" else max(r_[1] for r_ in c0.ranges.values())
+                with override_raise_controller_value_errors(False):
+                    setattr(tgt, c0.name, hi + 1000)
+                mc = rp.new_module(api.m.MultiCtl, mappings=[(0, 32768, cls.controllers[c0.name].number, 0, 0, 0, 0, 0)])
+                mc >> tgt
+                for prop_ in (False, True):
+                    try:
+                        mc.reflect(0, propagate=prop_)
+                    except Exception:
+                        pass
+                res.count("reflect_on_out_of_range_targets")
+        except Exception:
+            res.count("reflect_on_out_of_range_targets_failed")
         # keywords the constructor does not know (typos): ignored or refused, they say nothing about the class
         for kwname in ("transpoze", "no_such_keyword", "volume_", "Volume"):
             try:
